@@ -172,11 +172,30 @@ class CompositionOb(Obligation):
                     key='%s|compose|%s|%s' % (self.ev, self.outer, profile))
 
 
+AGREE_POOL = [0, 1, -1, 2, 3, 5, 7, 10, 63, 64, (1 << 53) - 1, 1 << 53, (1 << 53) + 1, 9007199254740993, 3 * ((1 << 53) + 1), 1 << 62, I64_MAX, I64_MIN, I64_MIN + 1, 10 ** 18, 3037000500, -3037000500, 21]
+
+
 class AgreeOb(Obligation):
     """eval_i64 Ok(v) on an integer node implies eval_number Integer(v) on the same operands (C15, first clause)"""
 
     def __init__(self, prop, kind, oc=True, assume_fn=None, n=2):
         Obligation.__init__(self, 'i64-vs-number/%s/%s' % (kind, 'dbg' if oc else 'rel')); self.prop = prop; self.kind = kind; self.oc = oc; self.assume_fn = assume_fn; self.n = n
+
+    def pool_witness(self, runner, vs, li, ln, shape, assume, res):
+        import itertools
+        if getattr(self, '_pooled', False): return None
+        self._pooled = True
+        for combo in itertools.product(AGREE_POOL, repeat=len(vs)):
+            if assume is not None and not z3.is_true(z3.simplify(z3.substitute(assume, *[(v, z3.IntVal(x)) for v, x in zip(vs, combo)]))): continue
+            args = lambda pre: [('Num' if pre else 'Number') + ' ' + (pre + str(x)) for x in combo]
+            def sx(pre, node):
+                leaves = ['(%s %s%d)' % (node, pre, x) for x in combo]
+                return '(%s %s)' % (self.kind, ' '.join(leaves))
+            sa = sx('', 'Number'); sb = sx('I', 'Num')
+            na = runner.request('AST', 'i64', sa)[:2]; nb = runner.request('AST', 'number', sb)[:2]
+            res['replayed'] += 1
+            if na[0] == 'OK' and nb != ('OK', 'I' + na[1]): return sa, sb, na, nb
+        return None
 
     def run(self, ctx):
         prog = ctx.prog(self.oc)
@@ -211,11 +230,17 @@ class AgreeOb(Obligation):
                         q = [b_not(pred)] if (pred is not True and pred is not False) else []
                     else: q = []
                     if good: res['discharged'] += 1; continue
-                    if e.check(pca, pcb, *q) != z3.sat: res['inconclusive'].append('%s: no model' % self.name); continue
-                    cz = Concretizer(e.solver.model(), runner)
+                    rm = refined_model(e, runner, [pca, pcb] + q)
+                    if rm is None and e.check(pca, pcb, *q) == z3.sat: rm = (e.solver.model(), Concretizer(e.solver.model(), runner))
+                    if rm is None: res['inconclusive'].append('%s: no model' % self.name); continue
+                    cz = rm[1]
                     sa, sb = sxa(cz), sxb(cz)
                     na = runner.request('AST', 'i64', sa)[:2]; nb = runner.request('AST', 'number', sb)[:2]
                     res['replayed'] += 1
+                    if not (na[0] == 'OK' and nb != ('OK', 'I' + na[1])):
+                        # the candidate did not reproduce (conversions are uninterpreted in this encoding): boundary operands on the compiled code
+                        w = self.pool_witness(runner, vs, li, ln, shape, assume, res)
+                        if w: sa, sb, na, nb = w
                     if na[0] == 'OK' and nb != ('OK', 'I' + na[1]):
                         res['confirmed'].append(dict(sexpr='%s | %s' % (sa, sb), native='eval_i64 %s, eval_number %s' % (' '.join(na), ' '.join(nb)), what='eval_number does not return Integer(v) where eval_i64 returns Ok(v)', profile=profile,
                                                      obligation=self.name, key='agree|i64-number|%s|%s' % (self.kind, profile)))
